@@ -331,6 +331,21 @@ func runEngVariant(prop string) runner {
 				rep.sample(map[string]interface{}{"grl": s.grl(), "outcome": obs.Outcome, "cycles": passes, "fired": fired})
 			}
 		}
+		if prop == "C04" {
+			// assignments into JSON facts (implementation-side oracle)
+			np := 40
+			if tier == "thorough" {
+				np = 1500
+			}
+			for i := 0; i < np; i++ {
+				pr := genJSONProbe(p.fork())
+				rep.Evaluations++
+				rep.count("json fact probes")
+				if msg := runJSONProbe(pr); msg != "" {
+					rep.fail(msg, pr)
+				}
+			}
+		}
 		if prop == "C05" {
 			// operator grouping against the published precedence table
 			for _, pp := range precedenceProbes() {
@@ -913,6 +928,13 @@ func replayEngAny(prop string) func(path string) (bool, string, error) {
 		b, err := os.ReadFile(path)
 		if err != nil {
 			return false, "", err
+		}
+		var jp struct {
+			Scenario jsonProbe `json:"scenario"`
+		}
+		if json.Unmarshal(b, &jp) == nil && jp.Scenario.Kind == "jsonprobe" {
+			msg := runJSONProbe(jp.Scenario)
+			return msg != "", msg + "\n" + jp.Scenario.Doc + "\n" + jp.Scenario.Stmt, nil
 		}
 		var rp struct {
 			What     string     `json:"what"`
